@@ -189,6 +189,7 @@ func checkC08(p *Prog, res *Result, tier string) {
 	res.rule("C08-R2", "every call path from Scanner.Range/Count/RangeStream to an engine iterator passes the floor check with compact=false, and its error returns first", 3)
 	res.rule("C08-R3", "the engine timestamp handed to the scan workers is obtained before the floor check", 2)
 	res.rule("C08-R5", "the engines evaluate the CAS on the compaction record atomically with the write (C11-R1/R2): otherwise an overlapping older compaction lowers the floor", 6)
+	res.rule("C08-R6", "the compaction record is written without an engine TTL (C17-R5): a record that expires lowers the floor to nothing", 4)
 	res.rule("C08-R4", "the floor check returns an error on the true branch of 'stored > requested' and returns nil only if the record is absent or not larger", 2)
 
 	// ---- R1 ----
@@ -249,6 +250,12 @@ func checkC08(p *Prog, res *Result, tier string) {
 			if (o.Rule == "C11-R1" && (strings.Contains(o.Construct, "CAS") || strings.Contains(o.Construct, "PutIfNotExist"))) ||
 				(o.Rule == "C11-R2" && (strings.Contains(o.Construct, "Commit:") || strings.Contains(o.Construct, "memkv:"))) {
 				res.add("C08-R5", o.Rule+" "+o.Construct, o.Status, o.Pos, o.Detail)
+			}
+		}
+		// ---- R6: the compaction record is written without an engine TTL (C17-R5) ----
+		for _, o := range p.subResult("C17", tier).Obls {
+			if o.Rule == "C17-R5" && strings.Contains(o.Construct, "TTL operand") && (strings.Contains(o.Construct, "setCompactRecord") || strings.Contains(o.Construct, "checkCompactRace")) {
+				res.add("C08-R6", o.Rule+" "+o.Construct, o.Status, o.Pos, o.Detail)
 			}
 		}
 	}
@@ -686,10 +693,31 @@ func checkRangeReadsGuarded(p *Prog, r *Roles, ck *compactKeyRole, res *Result) 
 			}
 		}
 	}
+	c08TsoScopes = map[*ssa.Function]bool{}
 	for _, e := range entries {
 		walk(frame{e, nil, funcName(e)}, e)
 	}
+	// R3: nobody replaces the snapshot timestamp of a worker after the function that checked the floor configured it
+	// (a retried attempt must read the snapshot the read was admitted on: the check is not repeated)
+	nLate := 0
+	for _, st := range p.fields().stores[wcTso] {
+		if c08TsoScopes[st.Parent()] {
+			continue
+		}
+		if fa, ok := st.Addr.(*ssa.FieldAddr); ok && isFreshObject(fa.X) {
+			continue // a literal under construction (copied field by field by a constructor)
+		}
+		nLate++
+		res.bad("C08-R3", fmt.Sprintf("%s: snapshot timestamp replaced after the floor check #%d", funcName(st.Parent()), nLate), p.pos(st.Pos()),
+			"the snapshot timestamp of a scan worker is overwritten outside the function that took it before the floor check: the next attempt reads a snapshot that is newer than the check (zero lets the engine pick a fresh one), so a compaction accepted in between removes versions the read still needs and the read succeeds with keys missing")
+	}
+	if nLate == 0 && len(p.fields().stores[wcTso]) > 0 {
+		res.ok("C08-R3", "workerConfig.tso: assigned only where the floor is checked", "-", fmt.Sprintf("%d store(s), all in the scope of a function that checks the floor", len(p.fields().stores[wcTso])))
+	}
 }
+
+// c08TsoScopes: the functions (with their closures) in which a floor check guards a scan
+var c08TsoScopes map[*ssa.Function]bool
 
 func checkGuardDetails(p *Prog, r *Roles, ck *compactKeyRole, res *Result, f *ssa.Function, g *ssa.Call, revParamIdx int, wcRev, wcTso *types.Var) {
 	// revision checked == revision scanned: values stored into workerConfig.revision in f or its closures
@@ -703,6 +731,9 @@ func checkGuardDetails(p *Prog, r *Roles, ck *compactKeyRole, res *Result, f *ss
 		}
 	}
 	collect(f)
+	for _, s := range scopes {
+		c08TsoScopes[s] = true
+	}
 	inScope := func(fn *ssa.Function) bool {
 		for _, s := range scopes {
 			if s == fn {
